@@ -93,6 +93,24 @@ DropIndex(path) ==
 \* ------------------------------------------------------------------ fragment
 RoutingFragment(f) == f # <<>> /\ (f[1] = 47 \/ f[1] = 33) /\ f \notin {<<33, 47>>, <<47>>, <<33>>}
 
+\* ------------------------------------------------------------------ triggers of recorded findings (predicates over the input)
+\* a redirect-like query item whose key is written with an escape, or which has a control character inside
+\* its key or value ('ur%6C=', 'ur<U+0085>l=', 'url=http://tar%<DEL>67et.com')
+RespelledRedirectKey(x) ==
+  LET s == IF HasProtocol(Strip(x)) THEN Strip(x) ELSE HTTP \o <<58, 47, 47>> \o Strip(x)
+      items == RawQueryItems(Split(s).query)
+  IN \E i \in 1..Len(items) :
+       LET k == items[i][1] val == items[i][2] IN
+       /\ (Has(k, 37) \/ (\E j \in 1..Len(k) : IsControl(k[j])) \/ (\E j \in 1..Len(val) : IsControl(val[j])))
+       /\ InSeq(Lower(Decode(DropControls(k))), ND.redirect_keys)
+\* a youtube.com / facebook.com url whose path ends with a slash
+PlatformTrailingSlash(x) ==
+  LET s == UpperEscapes(Clean(x))
+      sp == Split(IF HasProtocol(s) THEN s ELSE HTTP \o <<58, 47, 47>> \o s)
+      hl == HostLabels(NetParts(sp.netloc).rawhost)
+  IN /\ Len(sp.path) > 1 /\ sp.path[Len(sp.path)] = 47
+     /\ \E i \in 1..Len(ND.platform_domains) : Len(hl) >= 2 /\ SubSeq(hl, Len(hl) - 1, Len(hl)) = ND.platform_domains[i]
+
 \* ------------------------------------------------------------------ the pipeline
 \* component record after splitting
 LowIf(o, t) == IF o.lower THEN UpperEscapes(Lower(t)) ELSE t     \* (fingerprint) ASCII lower-casing of decoded text
